@@ -222,6 +222,7 @@ struct Exec {
 	uint64_t cb_fail_at = 0;
 	int cb_verdict = 1;
 	int cb_errno = -1000;   // errno value a callback leaves behind (F-errno via callback party)
+	bool cb_report = false; // a refusing callback calls cfg_error() on the context it was given
 	std::string cb2_mode;   // "", "veto", "rewrite"
 	long cb2_int = 0;
 	double cb2_float = 0;
@@ -235,7 +236,7 @@ static Exec *E = nullptr;
 
 // ------------------------------------------------------------------ callbacks (S5)
 
-static bool cb_tick(const std::string &entry, int *verdict)
+static bool cb_tick(const std::string &entry, int *verdict, cfg_t *cfg = nullptr)
 {
 	E->cur->cb_count++;
 	E->res.cb_invocations++;
@@ -249,6 +250,8 @@ static bool cb_tick(const std::string &entry, int *verdict)
 	if (fail)
 		E->res.faults_fired_cb++;
 	E->cur->cbs.push_back(entry + "->" + std::to_string(*verdict));
+	if (fail && E->cb_report && cfg)
+		cfg_error(cfg, "refused by callback"); // a refusing callback reports the error itself, as the API documentation asks
 	if (E->cb_errno != -1000)
 		errno = E->cb_errno;
 	return fail;
@@ -256,11 +259,10 @@ static bool cb_tick(const std::string &entry, int *verdict)
 
 static int sim_parsecb(cfg_t *cfg, cfg_opt_t *opt, const char *value, void *result)
 {
-	(void)cfg;
 	std::string v = value ? value : "(null)";
 	int verdict;
 	std::string entry = std::string("pcb ") + esc(opt->name) + " \"" + esc(v) + "\"";
-	if (cb_tick(entry, &verdict))
+	if (cb_tick(entry, &verdict, cfg))
 		return verdict;
 	uint64_t h = fnv64(v);
 	switch (opt->type) {
@@ -307,14 +309,13 @@ static std::string value_repr(cfg_opt_t *opt, unsigned i);
 
 static int sim_validcb(cfg_t *cfg, cfg_opt_t *opt)
 {
-	(void)cfg;
 	// read-only re-entry: what the validator sees
 	unsigned n = cfg_opt_size(opt);
 	std::string entry = std::string("vcb ") + esc(opt->name) + " n=" + std::to_string(n);
 	if (n)
 		entry += " last=" + value_repr(opt, n - 1);
 	int verdict;
-	cb_tick(entry, &verdict);
+	cb_tick(entry, &verdict, cfg);
 	return verdict;
 }
 
@@ -353,13 +354,12 @@ static int sim_validcb2(cfg_t *cfg, cfg_opt_t *opt, void *value)
 
 static int sim_func(cfg_t *cfg, cfg_opt_t *opt, int argc, const char **argv)
 {
-	(void)cfg;
 	std::string entry = std::string("fn ") + esc(opt->name) + " argc=" + std::to_string(argc) + " [";
 	for (int i = 0; i < argc; i++)
 		entry += std::string("\"") + (argv[i] ? esc(argv[i]) : "(null)") + "\",";
 	entry += "]";
 	int verdict;
-	cb_tick(entry, &verdict);
+	cb_tick(entry, &verdict, cfg);
 	return verdict;
 }
 
@@ -424,6 +424,8 @@ static cfg_opt_t *build_opts(const json &opts, Built &b)
 		}
 		if (o.contains("dp") && !o["dp"].is_null())
 			c.def.parsed = dupstr(bytes_of(o["dp"]), b);
+		if (o.contains("cm") && !o["cm"].is_null())
+			c.comment = dupstr(bytes_of(o["cm"]), b); // an annotation given in the declaration itself
 		if (o.contains("sub"))
 			c.subopts = build_opts(o["sub"], b);
 		if (o.value("pcb", 0))
@@ -779,6 +781,7 @@ static void run_op(int client, const json &op, OpResult &r)
 	E->cb_fail_at = op.value("fcb", (uint64_t)0);
 	E->cb_verdict = op.value("fcbv", 1);
 	E->cb_errno = op.value("cberrno", -1000);
+	E->cb_report = op.value("cberr", 0) != 0;
 	E->cb2_mode = op.value("cb2", std::string());
 	E->cb2_int = op.value("cb2i", 0L);
 	E->cb2_float = op.value("cb2f", 0.0);
